@@ -13,13 +13,14 @@ REQUIRED = ["value==averaged 1-D transport cost", "symmetric", "reorder=>0", "tr
             "diagonal translation (also negative)", "linear scaling", "SW <= 2*W1",
             "integer arrays == float arrays of the same values"]
 RULE = ("pairs/triples of diagrams with 0-40 points (quick <=25), empties, coordinates of both signs, near-diagonal points, "
-        "M in {1,2,3,10,50} and random M in 1..259, scales 1e-3..1e3; translations along the diagonal into negative coordinates. non-trivial = both "
+        "re-paired copies, M in {1,2,3,10,50} and random M in 1..259, scales 1e-3..1e3; one case in 251 has 1000-5000 points and M in 50..1000 with (m+n)*M between 1.1e6 and 6e6; translations along the diagonal into negative coordinates. non-trivial = both "
         "non-empty and (m != n or coordinates of mixed sign); distinct = digest of (pair, M)")
 ASSUMPTIONS = ["directions: theta_k = pi/2 + k*pi/M, k=0..M-1 (equally spaced over the half circle, starting at the vertical) - "
                "the sampling the statement calls 'the M sampled directions'",
                "oracle in float64: per direction sorted projections of D1 u proj(D2) vs D2 u proj(D1), L1, averaged",
                "tolerance 1e-6*scale*(m+n+1): persim projects with float32 direction vectors",
                "SW <= 2*W1 re-derived: matched pairs and their diagonal feet are transported together"]
+REQUIRED_NOTES = ["large-cases"]
 TECHNIQUE = "runtime monitoring: postcondition + metamorphic monitor on persim.sliced_wasserstein with a float64 re-implementation of the definition"
 
 
@@ -54,6 +55,8 @@ def gen_pair(rng, tier):
     scale = float(rng.choice([1e-3, 0.1, 1, 1, 1, 10, 1e3]))
     kind = str(rng.choice(["float", "cluster", "dyadic", "diagheavy", "grid"]))
     A, B = gen.diagram(rng, m, kind, scale), gen.diagram(rng, n, kind, scale)
+    if rng.random() < 0.06 and m >= 2:
+        B = gen.repaired(rng, A)        # same births and same deaths, paired differently
     if rng.random() < 0.15 and m and n:
         A = gen.specialize(rng, A, scale); B = gen.entangle(rng, A, gen.specialize(rng, B, scale))
     sign = str(rng.choice(["pos", "neg", "mixed", "pos"]))
@@ -66,11 +69,47 @@ def gen_pair(rng, tier):
     return A, B, scale, sign
 
 
+def large_case(ctx, k, rng):
+    """thousands of points and hundreds of directions ((m+n)*M of one to six million): block-wise / vectorised evaluation must
+    still be the plain average over the M directions"""
+    scale = float(rng.choice([1e-3, 1, 1, 1e3]))
+    m, n = int(rng.integers(500, 2501)), int(rng.integers(500, 2501))
+    M = int(rng.choice([50, 200, 333, 600, 777, 1000]))
+    while (m + n) * M < 1.1e6:
+        m, n = m * 2, n * 2
+    while (m + n) * M > 6e6:
+        m, n = m // 2, n // 2
+    kind = str(rng.choice(["float", "cluster", "diagheavy"]))
+    A, B = gen.diagram(rng, m, kind, scale), gen.diagram(rng, n, kind, scale)
+    if rng.random() < 0.3:
+        A, B = A - 0.7 * scale, B - 0.7 * scale
+    ctx.begin(k, "large", {"m": m, "n": n, "M": M, "PD1_head": A[:4], "PD2_head": B[:4], "kind": kind, "scale": scale})
+    ctx.note("large-cases")
+    sc = scale_of(A, B)
+    t = 1e-6 * sc * (m + n + 1)
+    try:
+        ctx.ran(2)
+        v = float(sw(A, B, M))
+        ref = ref_sw(A, B, M)
+        ctx.check("value==averaged 1-D transport cost", abs(v - ref) <= t, got=v, ref=ref, M=M, m=m, n=n)
+        nb = int(rng.integers(1, 400))
+        tb = rng.uniform(-sc, sc, nb)
+        B2 = np.vstack([B, np.column_stack([tb, tb])])[rng.permutation(n + nb)]
+        v2 = float(sw(A, B2, M))
+        ctx.check("diagonal points ignored", abs(v2 - v) <= t, got=v2, base=v, added=nb)
+        ctx.mark_nontrivial(m, n, M, float(A.sum()), float(B.sum()))
+    except Exception as e:
+        ctx.exception("returns a value", e)
+
+
 def run_case(ctx, k, rng):
+    if k % 251 == 9:
+        return large_case(ctx, k, rng)
     A, B, scale, sign = gen_pair(rng, ctx.tier)
     M = int(rng.choice([1, 2, 3, 10, 50, 50])) if rng.random() < 0.6 else int(rng.integers(1, 260))
     ctx.begin(k, sign, {"PD1": A, "PD2": B, "M": M})
     sc = scale_of(A, B)
+    A0, B0 = A.copy(), B.copy()         # pristine copies: the arrays A, B are reused across the related calls below, as a caller would
 
     def tol(P, Q, s=sc):
         return 1e-6 * s * (len(P) + len(Q) + 1)
@@ -123,6 +162,10 @@ def run_case(ctx, k, rng):
             ctx.set_payload({"A": A, "B": B, "C": C, "M": M})
             a, b = float(f(A, C)), float(f(C, B))
             s3 = scale_of(A, B, C)
+            # a distance matrix reuses the same array objects in many pairs: the value must be the one fresh copies give
+            a0, b0 = ref_sw(A0, C, M), ref_sw(C, B0, M)
+            ctx.check("arrays reused across calls give the values of fresh copies", abs(a - a0) <= tol(A, C, s3) and abs(b - b0) <= tol(C, B, s3),
+                      ac=a, ac_fresh=a0, cb=b, cb_fresh=b0)
             ctx.check("triangle", v <= a + b + tol(A, B, s3) + tol(A, C, s3) + tol(C, B, s3), ab=v, ac=a, cb=b)
         elif sub == 2:
             na, nb = int(rng.integers(0, 5)), int(rng.integers(1, 5))
